@@ -471,6 +471,23 @@ def _flat(W, arr):
     return arr.reshape((-1,) + W.full)
 
 
+def _addr(arr):
+    return arr.__array_interface__["data"][0]
+
+
+def _member_linked(W, f, kind, cfull, off):
+    """is the member `f` exactly the components off, off+1, ... of the collection array, its own
+    components in row-major order?"""
+    comp = (W.dim,) * RANK[kind]
+    ff = f._data_full
+    if type(f).__name__ != CLS[kind] or ff.shape != comp + W.full or ff.dtype != cfull.dtype:
+        return False
+    for flat, ix in enumerate(W.np.ndindex(*comp)):  # C order = row-major
+        if _addr(ff[ix]) != _addr(cfull[off + flat]) or ff[ix].strides != cfull[off + flat].strides:
+            return False
+    return True
+
+
 def step(W, M, op, args, check=True):
     """returns (violations, effect); the handle lists of W and M are updated"""
     np = W.np
@@ -602,13 +619,7 @@ def step(W, M, op, args, check=True):
         exp_off = 0
         for mi, (f, m) in enumerate(zip(flds, H[i].members)):
             linked_model = m.buf == H[i].buf and m.off == exp_off
-            ff = f._data_full
-            ok_addr = ff.shape == (W.dim,) * RANK[m.kind] + W.full and all(
-                ff[ix].__array_interface__["data"][0]
-                == cfull[exp_off + int(np.ravel_multi_index(ix, (W.dim,) * RANK[m.kind])) if ix else exp_off]
-                .__array_interface__["data"][0]
-                for ix in np.ndindex(*(W.dim,) * RANK[m.kind])
-            ) if type(f).__name__ == CLS[m.kind] else False
+            ok_addr = _member_linked(W, f, m.kind, cfull, exp_off)
             if linked_model and not ok_addr:
                 what = (f"{TAG} is not linked to the collection array" if H[i].copying
                         else "member is not linked to the collection array (fields in order, components row-major)")
